@@ -60,6 +60,7 @@ static struct {                     /* track refs of set vals written before */
     int16 dims[2];                  /* 0: vals set, not written */
     int   nt;                       /* non-zero: ref of val in file */
 } Ref                 = {-1, {-1, -1}, -1};
+static uint16 Grreadrigref = 0; /* ref of the RIG read last; it need not be the ref of its image */
 static DFGRrig Grread = {
     /* information about RIG being read */
     NULL,
@@ -707,7 +708,8 @@ DFGRIopen(const char *filename, int acc_mode)
             Ref.dims[LUT] = 0;
         if (Ref.nt > 0)
             Ref.nt = 0;
-        Grread = Grzrig; /* no rigs read yet */
+        Grread       = Grzrig; /* no rigs read yet */
+        Grreadrigref = 0;
     }
 
     /* remember filename, so reopen may be used next time if same file */
@@ -761,7 +763,9 @@ DFGRIriginfo(int32 file_id)
             aid = Hstartread(file_id, gettag, getref);
         }
         else {
-            aid = Hstartread(file_id, gettag, Grread.data[IMAGE].ref);
+            /* continue after the object read last: a RIG is found by its own ref, an RI8/CI8/II8 by the image ref */
+            aid = Hstartread(file_id, gettag,
+                             (gettag == DFTAG_RIG && Grreadrigref) ? Grreadrigref : Grread.data[IMAGE].ref);
             if ((aid != FAIL) && Hnextread(aid, gettag, getref, DF_CURRENT) == FAIL) {
                 Hendaccess(aid);
                 aid = FAIL;
@@ -796,6 +800,7 @@ DFGRIriginfo(int32 file_id)
     if (newtag == DFTAG_RIG) {
         if (DFGRgetrig(file_id, newref, &Grread) == FAIL)
             HGOTO_ERROR(DFE_INTERNAL, FAIL);
+        Grreadrigref = newref;
     }
     else {
         uint16 uint16var;
